@@ -73,8 +73,9 @@ def repair_flatten(sch, additional=False):
     if isinstance(sch, dict):
         out = {k: repair_flatten(v, additional) for k, v in sch.items()}
         if "allOf" in out and "unevaluatedProperties" in out:
+            # members do not close themselves (nor, for nested flattening, their own allOf)
             out["allOf"] = [
-                {k: v for k, v in m.items() if k != "additionalProperties"} if isinstance(m, dict) else m
+                {k: v for k, v in m.items() if k not in ("additionalProperties", "unevaluatedProperties")} if isinstance(m, dict) else m
                 for m in out["allOf"]
             ]
             if additional:  # ... and the closing keyword follows the additional_properties option
